@@ -514,6 +514,16 @@ def static_layers(run, prop):
                        "of the variable in one family member changes the entry held by its copies",
                        text=f"{cname}.{m}: the cached object is fresh (not a state variable's array)")
             else:
+                # an auxiliary output is stored under the key of the method it names: that method must itself be memoised in this concrete class
+                # (resolved through the MRO), otherwise the value lands under a key nothing reads and the later request evaluates the user function again
+                for a in aux:
+                    o_a, f_a = frames.resolve(table, cname, a)
+                    cached = f_a is not None and frames.decorator_info(f_a) is not None
+                    run.ob(P + f"{cname}.{m}/aux-output-{a}-names-a-memoised-method", core.DISCHARGED if cached else core.FAILED, "frames",
+                           detail="" if cached else f"{owner}.{m} declares the auxiliary output '{a}', but in {cname} `{a}` resolves to "
+                           f"{(o_a + '.' + a + ' which is not decorated with cache_in_state') if f_a is not None else 'no method'}: the value is stored under a key no method looks up",
+                           witness=None if cached else {"class": cname, "method": m, "aux": a},
+                           text=f"auxiliary outputs of {cname}.{m} are stored under keys that a cached method of the class reads")
                 over = sorted(set(declared) - actual)
                 # declared dependencies the method never reads cost needless re-evaluations (C18)
                 run.ob(P + f"{cname}.{m}/no-needless-dependencies", core.DISCHARGED if not over else core.FAILED, "frames",
